@@ -28,7 +28,10 @@ effect on the reference (mutation summaries). C04.6: for the 8 combinations of
 (align, correct_scale, align_origin) in ape() and rpe(), the value stored under
 alignment_transformation_sim3 is built from the results of every alignment
 call executed on that path, in the order applied (origin . umeyama), and in
-scale-only mode carries no rotation/translation.
+scale-only mode carries no rotation/translation. C04.7: the scale that
+similarity / scale-only alignment applies is Umeyama's reflection-corrected
+scale tr(D S)/sigma^2 and exactly 1.0 without scale estimation (instances of
+C03.3/C03.4).
 """
 UNDECIDED = [
     "RMSE never larger after alignment / optimal in its class (numerical, "
@@ -55,7 +58,7 @@ MANIFEST = dict(
               "summaries",
 )
 FLOORS = {"C04.1": 4, "C04.2": 4, "C04.3": 8, "C04.4": 3, "C04.5": 2,
-          "C04.6": 14}
+          "C04.6": 14, "C04.7": 3}
 
 ALIGN = "evo.core.trajectory.PosePath3D.align"
 ORIGIN = "evo.core.trajectory.PosePath3D.align_origin"
@@ -257,6 +260,8 @@ def check(ctx):
                f"{q.rsplit('.', 1)[1]} modifies the reference: {m[0]!r}",
                key=f"C04.5:{q.rsplit('.', 1)[1]}")
 
+    _umeyama_scale(ctx)
+
     # ------------------------------------------------------------- C04.6
     for fq in ("evo.main_ape.ape", "evo.main_rpe.rpe"):
         f = prog.func(fq)
@@ -385,6 +390,16 @@ def check(ctx):
                            f"applied sim3(r, t, s) of {fmt(U)}",
                            key=f"C04.6:{f.name}:umeyama:{al}:{cs}:{ao}",
                            stored=fmt(a_part))
+
+
+def _umeyama_scale(ctx):
+    """similarity / scale-only alignment applies the scale returned by
+    Umeyama: that scale must use the reflection-corrected trace tr(D S)
+    (necessary for 'never larger than under any other similarity'); shared
+    with C03.4"""
+    from ..core import import_rules
+    n = import_rules(ctx, "c03", ("C03.4", "C03.3"), "C04.7")
+    ctx.require(n >= 3, "C04.7: Umeyama sign-fix instances not found")
 
 
 VARIANTS = [
